@@ -80,15 +80,20 @@ PROPERTIES = {
     "C09": {
         "decided_by": "Proved: _create_clingo_constraints and _create_clingo_fixed_point_constraints add EXACTLY the rules of the specified answer-set "
                       "program (rule-level specification over an abstract syntax of the generated texts; enumeration mode matches the problem); "
-                      "_clingo_model_to_space / _clingo_model_to_fixed_point decode atoms with the right polarity; variable_to_place / place_to_variable "
-                      "are mutually inverse on real strings; trappist and compute_fixed_point_reduced_STG return an enumeration of the requested set, "
-                      "complete unless truncated by the limit, via the callback schema.",
+                      "trappist_async and compute_fixed_point_reduced_STG_async (bodies, for a Petri-net argument) hand clingo the specified program of the "
+                      "RIGHT arguments (variables and sources extracted from the given net by the verified extract_variable_names / "
+                      "extract_source_variables, the net reduced by exactly the transitions leaving a retained value) and feed the callback the decoded "
+                      "models in order until it returns False; _clingo_model_to_space / _clingo_model_to_fixed_point decode atoms with the right polarity; "
+                      "variable_to_place / place_to_variable are mutually inverse on real strings; trappist and compute_fixed_point_reduced_STG return an "
+                      "enumeration of the requested set, complete unless truncated by the limit, via the callback schema.",
         "bounded": "solver output vs brute-force trap spaces / fixed points / reduced-STG deadlocks for all problem kinds, time directions, ensure / avoid "
                    "subspaces, source lists and limits",
         "excluded": [],
-        "trusted": ["clingo parses the rule texts as the abstract rules and enumerates subset-minimal / -maximal stable models (domRec)",
-                    "L4 (Lean, siphon half; reverse-time half cited), L9 (Lean): stable models of the specified program = TrapSol",
-                    "trappist_async / compute_fixed_point_reduced_STG_async bodies (ground / solve / iterate) are assumed"],
+        "trusted": ["clingo parses the rule texts as the abstract rules and enumerates subset-minimal / -maximal stable models (domRec), each model a "
+                    "conflict-free set of declared place atoms",
+                    "glue between the body-level postcondition of the two *_async functions and their call-site view (enumeration of TrapSol / ReducedSol): "
+                    "L4 (Lean, siphon half; reverse-time half cited), L9 (Lean): stable models of the specified program = the requested spaces",
+                    "the BooleanNetwork branch of trappist_async (network_to_petrinet first) is assumed with network_to_petrinet"],
     },
     "C10": {
         "decided_by": "Proved: restrict_petrinet_to_subspace: full characterisation of the node and edge sets of the result for an arbitrary (uninterpreted) "
